@@ -196,6 +196,7 @@ func (ps *ProcessSet) handleThrow(ctx context.Context, msg throwMessage) {
 		}
 	}
 	cancel, found := ps.triggerCatch(string(sourceRef.TargetRefField))
+	verifhook.Point("processset.trigger")
 	if found {
 		cancel()
 	}
